@@ -64,7 +64,7 @@ Section Any.
     set_latest A st af v = Ok st' -> st_ok st -> status_ok v -> st_ok st'.
   Proof.
     unfold set_latest. intros H [HF Hall] Hv.
-    bind_as H as t Et. bind_as H as e Ee.
+    bind_as H as e Ee.
     destruct (negb (Bool.eqb _ _)); [discriminate|].
     destruct (negb (Qceqb _ _)); [discriminate|].
     inversion H; subst st'; clear H. split; cbn.
@@ -104,8 +104,8 @@ Section Any.
     unfold delta_nonsell. intros H (Hsh & Hall & Hacb) Hr Hn.
     destruct (t_act t) as [n price com rate crate | n price com rate crate sp | amount rate
                           | n amount | post pre_ io] eqn:Ea.
-    - bind_as H as nsh E1. bind_as H as nall E2.
-      apply gez_add_nonneg in E1. apply gez_add_nonneg in E2.
+    - bind_as H as nsh E1. bind_as H as r0 E0. bind_as H as nall E2.
+      apply gez_add_nonneg in E1. apply gez_unwrap_ok in E2 as [-> E2].
       destruct (s_acb pre) as [old|] eqn:Eacb.
       + bind_as H as v E3. bind_as H as c E4. bind_as H as pr E5. bind_as H as nacb E6.
         apply gez_add_nonneg in E6.
@@ -126,7 +126,7 @@ Section Any.
       + destruct (negb (af_reg (t_af t))); discriminate.
     - bind_as H as m E0. bind_as H as qd E1. bind_as H as nsh E2.
       apply gez_unwrap_ok in E2 as [-> E2].
-      bind_as H as diff E3. bind_as H as nall E4.
+      bind_as H as nall E4.
       destruct (Qcltb_spec nall 0) as [|Hge]; [discriminate|]. apply Qcnot_lt_le in Hge.
       destruct (_ && _); [discriminate|].
       inversion H; subst d. split; [reflexivity|]. unfold row_ok, status_ok; cbn.
